@@ -98,6 +98,11 @@ func C20_dial_cancellation() {
 		vAssert(conn.ops == 0, "dial.cancelled_before_connecting_touches_nothing")
 		return
 	}
+	if !silent && cancelAt == -1 && (vSymbolic() || (ctxKind <= 1 && timeout == 0)) {
+		// nothing ends the context and the peer answers at once (logical time does not advance
+		// while threads can run): the handshake must simply succeed
+		vAssert(err == nil, "dial.undisturbed_handshake_succeeds")
+	}
 	if err == nil {
 		// (a) success: deadlines left cleared, conn never touched again
 		vAssert(got == net.Conn(conn), "dial.success_returns_conn")
